@@ -254,6 +254,19 @@ pub fn run_total(args: &Args) {
         emit("type31_gate_bomb_volume", &build_file(&hb, &[(bz(&m), true)]), &mut tr, &mut res);
         emit("type31_gate_bomb_volume_raw", &build_file(&hb, &[(m.clone(), false)]), &mut tr, &mut res);
     }
+    // (3d) a well-formed volume of four elevations with five radials each (spacing codes cycle 0, 1, 2, 255; the first radial
+    //      of the fourth elevation has code 0): the scan path beyond a single message, whole and at every 97th truncation point
+    {
+        let l = Layouts::load();
+        let mut frames = Vec::new();
+        let mut id = 1u64;
+        for el in 1..=4u8 { for j in 0..5 { frames.extend_from_slice(&crate::scan::frame(&l, &mut rng, &crate::scan::Sym { radial: true, el, vol: if el == 1 && j == 0 { 212 } else { 0 }, id }, id as usize)); id += 1; } }
+        let vol = build_file(&hb, &[(bz(&frames), true)]);
+        emit("wellformed_four_elevations", &vol, &mut tr, &mut res);
+        emit("wellformed_four_elevations_raw", &build_file(&hb, &[(frames.clone(), false)]), &mut tr, &mut res);
+        let mut c = 24;
+        while c < vol.len() { emit("wellformed_four_elevations_cut", &vol[..c], &mut tr, &mut res); c += 97; }
+    }
     // (3c) a complete, otherwise well-formed radial (volume / elevation / radial blocks present, so that the scan gets as far as
     //      converting moments) whose moment block declares a word size other than 8 or 16
     for word in [0u8, 1, 4, 7, 9, 12, 15, 17, 24, 32, 64, 255] {
